@@ -273,6 +273,15 @@ theorem core_step (s : State) (m : Move) (h : Inv s) (c : Core s) (ha : assumed1
     exact apiRelease_core _ ip k c0 (single_of_alloc_eq (single_of_bool s c.coh ha.2) rfl)
   | reload pools fault => simp [assumed10] at ha
   | restart => simp [assumed10] at ha
+  | resyncSnap => exact c.of_eq rfl rfl rfl rfl rfl rfl
+  | resyncRec ip fault pfault =>
+    simp only [assumed10, Bool.and_eq_true, beq_iff_eq] at ha
+    dsimp only [step]
+    split
+    · exact c
+    · rename_i r0 _
+      have c0 : Core (withFaults s fault pfault) := c.of_eq rfl rfl rfl rfl rfl rfl
+      exact (resyncOne_core _ ip r0 c0 (single_of_alloc_eq (single_of_bool s c.coh ha.2) rfl)).1.of_eq rfl rfl rfl rfl rfl rfl
 
 /-- where a live bound pod of the state after the move comes from: it was live and bound before, with the same node and
     addresses - or the move has just bound it and its addresses are assigned to its node -/
@@ -368,6 +377,12 @@ theorem back_step (s : State) (m : Move) (h : Inv s) (c : Core s) (ha : assumed1
   | apiRelease ip k fault pfault => exact Back.of_pods_eq (apiRelease_pods _ (withFaults s fault pfault) ip k)
   | reload pools fault => simp [assumed10] at ha
   | restart => simp [assumed10] at ha
+  | resyncSnap => exact Back.of_pods_eq rfl
+  | resyncRec ip fault pfault =>
+    dsimp only [step]
+    split
+    · exact Back.of_pods_eq rfl
+    · exact Back.of_pods_eq (resyncOne_pods _ (withFaults s fault pfault) ip _)
 
 theorem inv10_step (s : State) (m : Move) (h : Inv10 s) (ha : assumedAll s m = true) :
     Inv10 (step Facts.good s m).1 := by
